@@ -882,7 +882,7 @@ func (u *Unit) execFor(st *State, x *ast.ForStmt, label string) []*Out {
 		switch {
 		case o.kind == oNormal, o.kind == oContinue && (o.label == "" || o.label == label):
 			s := o.st
-			u.loopAnchor(s, ord, "iterend", pos)
+			u.loopAnchor(s, ord, "iterend", x.Body.Rbrace)
 			if x.Post != nil {
 				po := u.execStmt(s, x.Post, "")
 				s = po[0].st
@@ -1050,7 +1050,7 @@ func (u *Unit) execRange(st *State, x *ast.RangeStmt, label string) []*Out {
 		bodyOuts := u.execBlock(b, x.Body.List)
 		for _, o := range bodyOuts {
 			if o.kind == oNormal || o.kind == oContinue && (o.label == "" || o.label == label) {
-				u.loopAnchor(o.st, ord, "iterend", pos)
+				u.loopAnchor(o.st, ord, "iterend", x.Body.Rbrace)
 			}
 		}
 		u.rangeStack = u.rangeStack[:len(u.rangeStack)-1]
@@ -1154,7 +1154,7 @@ func (u *Unit) execRangeOpaque(st *State, x *ast.RangeStmt, label string, ls *Lo
 	for _, o := range u.execBlock(b, x.Body.List) {
 		switch {
 		case o.kind == oNormal, o.kind == oContinue && (o.label == "" || o.label == label):
-			u.loopAnchor(o.st, ord, "iterend", pos)
+			u.loopAnchor(o.st, ord, "iterend", x.Body.Rbrace)
 			u.loopInvariants(o.st, ls, ord, "preserve", pos, nil, false)
 			u.loopFrame(o.st, ord, "preserve", pos)
 		case o.kind == oBreak && (o.label == "" || o.label == label):
